@@ -174,6 +174,12 @@ package resolver
 //@   # servers and have the delegated zone recorded as failed for every other client
 //@   assert at call errors.Is#3: arg0 == lastret("(*middleware/resolver.Resolver).lookupNSAddrV4", 1) && arg1 == middleware.ErrResolutionShed
 //@   possible at return#1: lastret("errors.Is#3")
+//@   # C13 ("failures local to one request (... attempt limit ...) never become shared state"): when a nameserver name was
+//@   # refused by this request tree's own attempt limit and the delegation ended up WITHOUT ANY server, that request-local
+//@   # error is what is returned - whatever happened to the other names - so the caller does not record the zone as failed
+//@   assert at return#2: result == lastAttemptLimit && lastAttemptLimit != nil && !hasServer
+//@   possible at return#2: true
+//@   assert at return#3: result == nil
 //@
 //@ func (*Resolver).lookupV6Nss
 //@   abstract
@@ -213,6 +219,11 @@ package resolver
 //@   # C13: when deciding whether missing signatures are a failure could not be done for a reason local to this request,
 //@   # that error is what answer() returns (the handler then marks the reply request-local and the cache skips it)
 //@   assert at call (*middleware/resolver.Resolver).insecureDelegationProven#1: lastret("(*middleware/resolver.Resolver).zoneSecure#1") && lastret("(*middleware/resolver.Resolver).zoneSecure#1", 1) == nil
+//@   # C01 ("a zone is treated as unsigned only on a validated proof that its parent holds no usable DS"): whether missing
+//@   # signatures are acceptable is asked about the ZONE WHOSE SERVERS WERE ASKED and the name that was asked - never
+//@   # about a name the reply itself supplies (the signer an RRSIG claims)
+//@   assert at call (*middleware/resolver.Resolver).zoneSecure#1: arg2 == q.Name && arg4 == zone
+//@   assert at call (*middleware/resolver.Resolver).zoneSecure#2: arg2 == q.Name && arg4 == zone
 //@   # C01: a non-empty answer section is followed, validated and returned only if it ANSWERS THE QUESTION - holds a
 //@   # record of the question's type or an alias; a genuine signed RRset of another type verifies but is no answer
 //@   assert at call (*middleware/resolver.Resolver).checkDname#1: calls("middleware/resolver.answersQuestion") == 0 || lastret("middleware/resolver.answersQuestion")
@@ -257,6 +268,9 @@ package resolver
 //@   assert at call middleware/resolver.recordsInZoneAndOPT#1: arg0 == old(resp.Extra) && arg1 == zone
 //@   assert at store dns.Msg.Extra#1: value == lastret("middleware/resolver.recordsInZoneAndOPT") && target == resp
 //@   assert at call (*middleware/resolver.Resolver).findRRSIGSigners#1: calls("internal/dnsutil.FilterRRsToZone") == 1 && calls("middleware/resolver.recordsInZoneAndOPT") == 1
+//@   # the signature-status question is asked about the zone whose servers were asked and the name asked (C01)
+//@   assert at call (*middleware/resolver.Resolver).zoneSecure#1: arg2 == q.Name && arg4 == zone
+//@   assert at call (*middleware/resolver.Resolver).zoneSecure#2: arg2 == q.Name && arg4 == zone
 //@
 //@ # referrals: with CD=0 validation needs trust anchors (fail closed); a verified referral yields the child's signed DS
 //@ # set, or an empty DS set only after a denial proof from the validated signer zone verified; otherwise an error
@@ -274,6 +288,8 @@ package resolver
 //@   assert at call middleware/resolver/dnssec.VerifyDelegationNSEC#1: arg1 == lastret("internal/dnsutil.FilterRRsToZone")
 //@   # C13: a signature-status probe that failed for a reason local to this request is returned as that error
 //@   assert at return#9: result0 == nil && result1 == lastret("(*middleware/resolver.Resolver).zoneSecure", 1) && result1 != nil
+//@   # the signature-status question is asked about the zone whose servers were asked and the name asked (C01)
+//@   assert at call (*middleware/resolver.Resolver).zoneSecure#1: arg2 == q.Name && arg4 == zone
 //@
 //@ # ---- C02: RFC 8020 stop. Resolution stops at a minimised NXDOMAIN only when authority() validated it without
 //@ # error AND the validated-denial provenance for that exact reply is aggressive-eligible and not resting on an
